@@ -57,11 +57,15 @@ class _Lock:
         self.f.close()
 
 
-def lake_build(targets, timeout=1500):
-    """Build the given lake targets (serialised by a file lock). Returns (ok, log)."""
+def lake_build(targets, timeout=1500, snapshot_exe=None):
+    """Build the given lake targets (serialised by a file lock). Returns (ok, log).
+    `snapshot_exe`: path to copy the freshly built driver to while the lock is still held (other builders sharing
+    the project may re-link it at any time)."""
     with _Lock():
         p = subprocess.run(["lake", "build"] + list(targets), cwd=LEAN, capture_output=True, text=True,
                            timeout=timeout)
+        if p.returncode == 0 and snapshot_exe and EXE.exists():
+            shutil.copy2(EXE, snapshot_exe)
     log = "\n".join(l for l in (p.stdout + p.stderr).splitlines() if "WARNING conda" not in l)
     return p.returncode == 0, log
 
@@ -126,18 +130,19 @@ class Model:
 
     def __init__(self):
         self.calls = 0
+        self.exe = EXE
 
     def batch(self, requests, timeout=1200):
         if not requests:
             return []
         for _ in range(90):   # another builder may be re-linking the shared driver
-            if EXE.exists():
+            if Path(self.exe).exists():
                 break
             time.sleep(1)
         else:
             raise RuntimeError("model driver not built")
         data = "\n".join(json.dumps(r, ensure_ascii=True) for r in requests) + "\n"
-        p = subprocess.run([str(EXE)], input=data, capture_output=True, text=True, timeout=timeout)
+        p = subprocess.run([str(self.exe)], input=data, capture_output=True, text=True, timeout=timeout)
         lines = [l for l in p.stdout.splitlines() if l.strip()]
         if p.returncode != 0 or len(lines) != len(requests):
             raise RuntimeError(f"driver failed rc={p.returncode} answers={len(lines)}/{len(requests)} "
@@ -264,7 +269,13 @@ def finalize(ctx, level_text=""):
         print(f"VIOLATION property={ctx.prop} replay={rp.relative_to(ROOT)} no-failing-input-found")
         exit_code = 1
     write_evidence(ctx, len(new) + (1 if exit_code and not new else 0))
+    cleanup(ctx)
     return exit_code
+
+
+def cleanup(ctx):
+    if getattr(ctx, "scratch", None):
+        shutil.rmtree(ctx.scratch, ignore_errors=True)
 
 
 def write_evidence(ctx, n_viol):
@@ -302,7 +313,11 @@ def write_evidence(ctx, n_viol):
 def standard_obligations(ctx, theorems, extra_targets=()):
     """Steps 1-2 of the decision procedure: build, forbidden-token scan, axiom audit."""
     module = f"HedVerif.Props.{ctx.prop}"
-    ok, log = lake_build([module, "hedmodel", *extra_targets])
+    ctx.scratch = tempfile.mkdtemp(prefix="hedverif_run_")
+    snap = os.path.join(ctx.scratch, "hedmodel")
+    ok, log = lake_build([module, "hedmodel", *extra_targets], snapshot_exe=snap)
+    if os.path.exists(snap):
+        ctx.model.exe = snap
     if not ok:
         # find which theorem failed, if we can
         m = re.findall(r"error: (\S+\.lean:\d+:\d+: .*)", log)
